@@ -224,7 +224,7 @@ def s1_cfg(I):
 
 def _replay_instantiate(label, m):
     d, g, t = m['duration'], m['genesis'], m['block_time_nanos']
-    sc = {'setup': {'time_nanos': str(t), 'epoch': {'genesis': str(g), 'duration': str(d)}, 'only_epoch_manager': True}, 'steps': []}
+    sc = {'setup': {'time_nanos': str(t), 'epoch': {'genesis': str(g), 'duration': str(d)}}, 'steps': [], '_setup_error_ok': True}
 
     def judge(out):
         ok = 'epoch_manager' in out.get('addrs', {}) and not out.get('setup_error')
